@@ -309,8 +309,11 @@ static std::string do_extract(const std::string &tok)
         auto same = [](const std::basic_string<CharT> &r, const ST::string &x) {
             try { ST::string y; y.set(r.c_str(), r.size()); return y == x; } catch (...) { return true; }
         };
-        if (!same(r1, s1) || !same(r2, s2) || !same(r3, s3) || ia.rdstate() != ib.rdstate() || ia.width() != ib.width())
-            o << " seqdiff=" << variant;
+        // a different TOKEN is the property's business; a different stream state afterwards only departs from the model
+        if (!same(r1, s1) || !same(r2, s2) || !same(r3, s3))
+            o << " seqtok=" << variant;
+        else if (ia.rdstate() != ib.rdstate() || ia.width() != ib.width())
+            o << " seqstate=" << variant;
     }
     return o.str();
 }
@@ -431,5 +434,7 @@ static std::string fmt_probe()
     ST::string_stream ss; ss << "s" << 12345 << ' ' << 1.5 << u"\u00e9"; o << "|" << hex(ss.to_string());
     return o.str();
 }
+
+VH_STARTUP_PROBE(fmt_probe)
 
 int main(int argc, char **argv) { vh::g_probe = fmt_probe; return run_main(argc, argv, dispatch); }
